@@ -481,6 +481,18 @@ def execute(sc, script=None):
                     if full(a) == full(b) and pos[id(a)] > pos[id(b)]:
                         viol("sort", "sort_issues is not stable: two issues with equal keys were swapped", "sort-unstable")
                         break
+                # the descending order is the same sort: same issues, keys non-increasing, ties in reported order
+                outr = er.sort_issues(list(bag), reverse=True)
+                if sorted(map(id, outr)) != sorted(map(id, bag)):
+                    viol("sort", "sort_issues(reverse=True) changed the set of issues", "sort-reverse-loses-issues")
+                    break
+                ksr = [keyf(d) for d in outr]
+                if any(a < b for a, b in zip(ksr, ksr[1:])):
+                    viol("sort", "sort_issues(reverse=True) result is not in descending key order", "sort-reverse-order")
+                for a, b in zip(outr, outr[1:]):
+                    if full(a) == full(b) and pos[id(a)] > pos[id(b)]:
+                        viol("sort", "sort_issues(reverse=True) is not stable: two issues with equal keys were swapped", "sort-reverse-unstable")
+                        break
             elif kind == "filter":
                 errs = EH.filter_issues_by_severity(bag, 1)
                 if [id(i) for i in errs] != [id(i) for i in bag if i["severity"] <= 1]:
